@@ -174,6 +174,24 @@ def _reduce_sqrt(d):
     return d
 
 
+def _clear_neg_sqrt(d):
+    """multiply a Laurent polynomial by powers of (non-zero) sqrt variables until none of them has a negative
+    exponent, reducing w**2 -> radicand on the way: the result is zero iff the input is zero"""
+    if not REG.sqrt_def:
+        return d
+    for _ in range(12):
+        worst = None
+        for m in d:
+            for v, e in m:
+                if e < 0 and v in REG.sqrt_def and (worst is None or e < worst[1]):
+                    worst = (v, e)
+        if worst is None:
+            return d
+        v, e = worst
+        d = _reduce_sqrt({_mmul(m, ((v, -e), )): c for m, c in d.items()})
+    return d
+
+
 def _pmul_raw(a, b):
     d = {}
     for m1, (a1, b1) in a.items():
@@ -278,6 +296,34 @@ def _vars_of(a, out):
     for m in a:
         for v, _ in m:
             out.add(v)
+
+
+def _obviously_positive(a, depth=0):
+    """polynomial that is > 0 for all admissible values by inspection: real positive coefficients, every variable
+    positive / non-negative / a sqrt variable / with an even exponent, and at least one strictly positive monomial"""
+    if not a or depth > 4:
+        return False
+    strict = False
+    for m, (x, y) in a.items():
+        if y != 0 or x <= 0:
+            return False
+        mono_strict = True
+        for v, e in m:
+            k = REG.kind[v]
+            if k == 'p':
+                continue
+            if k == 's':
+                rad = REG.sqrt_def.get(v)
+                if rad is not None and _obviously_positive(rad, depth + 1):
+                    continue
+                mono_strict = False
+                continue  # sqrt variables are >= 0
+            if k == 'n' or e % 2 == 0:
+                mono_strict = False
+                continue
+            return False
+        strict = strict or mono_strict
+    return strict
 
 
 def _positive_monomial(a):
@@ -484,7 +530,7 @@ class R:
             return POISON
         num = self.d if self.d is not None else {_ONE: (1, 0)}
         nz = False
-        if _is_const(self.n) or _positive_monomial(self.n):
+        if _is_const(self.n) or _positive_monomial(self.n) or _obviously_positive(self.n):
             nz = True
         elif len(self.n) == 1:
             # single monomial: zero iff one of its variables is zero
@@ -594,6 +640,9 @@ class R:
             return POISON
         if not self.is_real():
             raise SymLeak("sqrt of complex")
+        if self.d is not None and _obviously_positive(self.d):
+            # sqrt(n/d) = sqrt(n)/sqrt(d) for d > 0
+            return R(self.n).sqrt() * R(self.d).sqrt().inv()
         if self.is_const():
             c = self.const()
             if c < 0:
@@ -608,7 +657,7 @@ class R:
         # monomial with even exponents and square coefficient of positive vars
         if self.d is None and len(self.n) == 1:
             (m, (x, y)), = self.n.items()
-            if x > 0 and all(e % 2 == 0 and REG.kind[v] in 'pn' for v, e in m):
+            if x > 0 and all(e % 2 == 0 and REG.kind[v] in 'pns' for v, e in m):
                 import math
                 fr = Fraction(x)
                 a, b = math.isqrt(fr.numerator), math.isqrt(fr.denominator)
@@ -675,6 +724,11 @@ class R:
             return c[0] == 0 and c[1] == 0
         if d.d is not None:
             d = R(d.n)  # n/d == 0 <=> n == 0 (d != 0 was forked at division)
+        if REG.sqrt_def:
+            d = R(_clear_neg_sqrt(d.n))
+            if d.is_const():
+                c = _const_val(d.n)
+                return c[0] == 0 and c[1] == 0
         if len(d.n) == 1 and not REG.sqrt_def:
             (m, _c), = d.n.items()
             if all(REG.kind[v] == 'p' for v, _ in m):
